@@ -464,7 +464,7 @@ def handleRun (args : List Sexp) : String :=
       let cancelAt := cancelS.toNat?
       let s0 := St.init cancelAt
       -- the harness binds these Go stubs in the global scope
-      let stubs := ["probe", "id", "probe2", "probe3", "vprobe", "fv", "typed", "typed2", "boom", "zero", "two"]
+      let stubs := ["probe", "id", "probe2", "probe3", "vprobe", "fv", "typed", "typed2", "vtyped", "boom", "zero", "two"]
       let s1 := stubs.foldl (fun st n => st.define 0 n ⟨false, .gofn n⟩) s0
       let r := runProgram fuel p s1
       match r.unsup with
